@@ -101,7 +101,7 @@ theorem C10_sdtitle_selection (isfile : Bytes → Bool) (name : Tmd.ChunkRecord 
     encrypted title key with its common-key index, and the ticket file `cetk` (of which only the first 0x2AC bytes are
     read), both yield the packed title key — for every engine that has the common-key KeyX (retail, and dev for an index
     other than 0), given that AES decryption inverts encryption -/
-theorem C10_cdn_key_sources (E D : Bytes → Bytes → Bytes) (hED : ∀ k b, D k (E k b) = b) (hE : ∀ k b, (E k b).length = 16)
+theorem C10_cdn_key_sources (E D : Bytes → Bytes → Bytes) (hED : ∀ k b, b.length = 16 → D k (E k b) = b) (hE : ∀ k b, b.length = 16 → (E k b).length = 16)
     (e : Engine) (x ky idx : Nat) (k tid : Bytes) (hx : e.keyX 0x3D = some x) (hk : k.length = 16) (htid : tid.length = 8)
     (hidx : Engine.commonKeyY[idx]? = some ky) (hnd : ¬ (e.dev = true ∧ idx = 0)) :
     let encTk := E (keygenSlot 0x3D x ky) (xorBytes k (tid ++ zeros 8))
